@@ -4,6 +4,7 @@
 mod ac;
 mod eng;
 mod gen;
+mod guardc;
 mod misc;
 mod oracle;
 mod packedc;
@@ -122,6 +123,25 @@ impl Args {
     }
 }
 
+/// add the counts and failures of a child process' report (its last stdout line) to `rep`
+pub fn forward_child(rep: &Report, stdout: &str) {
+    if let Some(line) = stdout.lines().filter(|l| l.starts_with('{')).last() {
+        let num = |key: &str| -> usize {
+            line.split(&format!("\"{}\":", key)).nth(1).and_then(|x| x.split(|c: char| !c.is_ascii_digit()).next()).and_then(|x| x.parse().ok()).unwrap_or(0)
+        };
+        rep.cases_n(num("cases"), num("nontrivial"));
+        if let Some(fs) = line.split("\"failures\":[").nth(1) {
+            let fs = fs.split("],\"samples\"").next().unwrap_or("");
+            for obj in fs.split("{\"key\":\"").skip(1) {
+                let key = obj.split("\",\"what\":\"").next().unwrap_or("").to_string();
+                let what = obj.split("\",\"what\":\"").nth(1).and_then(|x| x.split("\",\"argv\":[").next()).unwrap_or("").replace("\\\\", "\\").replace("\\\"", "\"");
+                let argv: Vec<String> = obj.split("\"argv\":[").nth(1).and_then(|x| x.split(']').next()).unwrap_or("").split(',').map(|a| a.trim_matches('"').to_string()).filter(|a| !a.is_empty()).collect();
+                rep.fail(Fail { key, what, argv });
+            }
+        }
+    }
+}
+
 /// run `f` over items on all cores
 pub fn par_for<T: Sync, F: Fn(&T) + Sync>(items: &[T], f: F) {
     let n = std::thread::available_parallelism().map(|x| x.get()).unwrap_or(4).min(16);
@@ -175,6 +195,7 @@ fn main() {
         "cfgprod" => misc::cfgprod(&args),
         "meta" => misc::meta(&args),
         "purity" => misc::purity(&args),
+        "guard" => guardc::run(&args),
         "bigkinds" => misc::bigkinds(&args),
         "scaling" => misc::scaling(&args),
         "faildepth" => ac::faildepth(&args),
